@@ -71,6 +71,30 @@ class Path:
         self.inputs = {}  # name -> z3 var, registered by the harness for counterexample reporting
         self.assumed = 0
         self.bounds = {}  # z3 const name -> (lo, hi): ranges given when the variable was created
+        self.fork_mode = False
+        self.is_child = False
+        self.child_failures = []
+
+    # -- forking ---------------------------------------------------------------------------
+    def _fork(self):
+        """Split the process at a two-sided decision: the child explores the True side to the end
+        (and exits), then the parent continues with the False side.  Nothing is re-executed."""
+        import os
+        import sys
+
+        sys.stdout.flush()
+        sys.stderr.flush()
+        pid = os.fork()
+        if pid == 0:
+            self.is_child = True
+            self.queries = 0
+            self.solver_time = 0.0
+            self.unknowns = 0
+            return True
+        _, status = os.waitpid(pid, 0)
+        if status != 0:
+            self.child_failures.append(status)
+        return False
 
     # -- variables -------------------------------------------------------------------------
     def fresh_name(self, hint):
@@ -166,8 +190,11 @@ class Path:
                 b = True
             else:
                 # both sides feasible (or unknown: explored, which is sound for proving)
-                b = True
-                self.pending.append(list(self.trace) + [False])
+                if self.fork_mode:
+                    b = self._fork()
+                else:
+                    b = True
+                    self.pending.append(list(self.trace) + [False])
         self._add(c if b else z3.Not(c))
         self.trace.append(b)
         return b
@@ -195,10 +222,18 @@ class Path:
                 if r != z3.sat:
                     raise EngineError("concretize(%s): solver gave %s" % (what, r))
                 v = self.solver.model().eval(e, model_completion=True).as_long()
-                self.pending.append(list(self.trace) + [("ne", v)])
-                self.trace.append(("eq", v))
-                self._add(e == v)
-                return v
+                if self.fork_mode:
+                    if self._fork():
+                        self.trace.append(("eq", v))
+                        self._add(e == v)
+                        return v
+                    self.trace.append(("ne", v))
+                    self._add(e != v)
+                else:
+                    self.pending.append(list(self.trace) + [("ne", v)])
+                    self.trace.append(("eq", v))
+                    self._add(e == v)
+                    return v
             tried += 1
             if tried > limit:
                 raise PathLimit("concretize(%s): more than %d values" % (what, limit))
@@ -406,11 +441,20 @@ def second_opinion(solver, extra, timeout_s=None):
                 pass
 
 
-def explore(run, prefix_limit=20000, timeout_ms=20000, seed=0, on_path=None):
-    """Run `run(path)` once per feasible decision prefix.  `run` returns any result object.
+def explore(run, prefix_limit=20000, timeout_ms=20000, seed=0, on_path=None, fork=None):
+    """Run `run(path)` once per feasible combination of decisions.  `run` returns a JSON-able result.
 
+    Two strategies with the same meaning: fork (default: the process splits at every two-sided
+    decision, nothing is executed twice; results come back through an append-only file) and
+    re-execution with a decision prefix (VERIF_NOFORK=1; needs no fork, used for debugging).
     Returns (results, stats).  PathInfeasible drops a path; EngineError propagates to the caller.
     """
+    import os
+
+    if fork is None:
+        fork = not os.environ.get("VERIF_NOFORK")
+    if fork:
+        return _explore_fork(run, timeout_ms, seed, prefix_limit)
     global _CUR
     work = [[]]
     results = []
@@ -437,6 +481,83 @@ def explore(run, prefix_limit=20000, timeout_ms=20000, seed=0, on_path=None):
         if stats["paths"] + stats["dropped"] > prefix_limit:
             raise PathLimit("more than %d paths" % prefix_limit)
     return results, stats
+
+
+def _explore_fork(run, timeout_ms, seed, prefix_limit):
+    import json
+    import os
+    import tempfile
+    import traceback
+
+    global _CUR
+    fd, path = tempfile.mkstemp(prefix="pyvc-paths-", suffix=".jsonl")
+    os.close(fd)
+    p = Path([], timeout_ms=timeout_ms, seed=seed)
+    p.fork_mode = True
+    _CUR = p
+    rec = None
+    try:
+        try:
+            try:
+                r = run(p)
+                rec = {"kind": "path", "result": r}
+            except PathInfeasible:
+                rec = {"kind": "dropped"}
+            except EngineError as e:
+                tb = traceback.format_exc().strip().splitlines()
+                rec = {"kind": "engine-error", "error": "%s: %s" % (type(e).__name__, e),
+                       "where": " | ".join(l.strip() for l in tb[-8:-1] if "File" in l)[-400:]}
+            except Exception as e:
+                tb = traceback.format_exc().strip().splitlines()
+                rec = {"kind": "harness-error", "error": "%s: %s" % (type(e).__name__, e),
+                       "where": " | ".join(l.strip() for l in tb[-8:-1] if "File" in l)[-400:]}
+            rec["queries"] = p.queries
+            rec["solver_time"] = p.solver_time
+            rec["unknowns"] = p.unknowns
+            rec["child_failures"] = len(p.child_failures)
+            with open(path, "a", encoding="utf-8") as f:
+                f.write(json.dumps(rec, default=repr) + "\n")
+        finally:
+            if p.is_child:
+                os._exit(0)  # a child never returns into the caller
+    except BaseException:
+        if p.is_child:
+            os._exit(3)
+        raise
+    finally:
+        _CUR = None
+    results = []
+    stats = dict(paths=0, dropped=0, queries=0, solver_time=0.0, unknowns=0)
+    errors = []
+    crashed = 0
+    try:
+        with open(path, encoding="utf-8") as f:
+            for line in f:
+                d = json.loads(line)
+                stats["queries"] += d.get("queries", 0)
+                stats["solver_time"] += d.get("solver_time", 0.0)
+                stats["unknowns"] += d.get("unknowns", 0)
+                crashed += d.get("child_failures", 0)
+                if d["kind"] == "path":
+                    results.append(d["result"])
+                    stats["paths"] += 1
+                elif d["kind"] == "dropped":
+                    stats["dropped"] += 1
+                else:
+                    errors.append(d)
+    finally:
+        os.unlink(path)
+    if crashed:
+        raise EngineError("%d forked path process(es) died" % crashed)
+    if errors:
+        e = errors[0]
+        cls = HarnessError if e["kind"] == "harness-error" else EngineError
+        raise cls("%s @ %s (%d path(s))" % (e["error"], e["where"], len(errors)))
+    return results, stats
+
+
+class HarnessError(Exception):
+    pass
 
 
 # --------------------------------------------------------------------------------------------
